@@ -163,6 +163,21 @@ def do(op: dict) -> str:
         SOLVERS[op["sid"]] = (kind, sv)
         hdr = f"n={p.n_states} maxbs={op['maxbs']} dev={sv.n_devices} bsz={sv.batch_size} npad={sv.n_pad} "
         return hdr + f"ok thr={frac(Fraction(float(sv.conv_threshold)))} " + state_line(kind, sv, False, 0, [])
+    if o == "evaluate":
+        p = PROBLEMS[op["id"]]
+        key = (op["id"], op["maxbs"], op["test"], op["gamma"], op["eps"], op["budget"])
+        if key not in SWEEPERS:
+            SWEEPERS[key] = solver_class("pi")(p, gamma=float(Fraction(op["gamma"])), epsilon=float(Fraction(op["eps"])),
+                                               max_batch_size=op["maxbs"], convergence_test=op["test"], max_eval_iter=op["budget"], verbose=0)
+        sv = SWEEPERS[key]
+        pol = jnp.asarray(np.asarray(p.action_space)[np.array(op["pol"], dtype=int)])
+        V = jnp.array([float(Fraction(x)) for x in op["V"]], dtype=jnp.float64)
+        out = sv._evaluate_policy(pol, starting_values=V)
+        return f"n={p.n_states} maxbs={op['maxbs']} dev={sv.n_devices} values={fvals(out)}"
+    if o == "setpolicy":
+        kind, sv = SOLVERS[op["sid"]]
+        sv.policy = jnp.asarray(np.asarray(sv.problem.action_space)[np.array(op["pol"], dtype=int)])
+        return "ok"
     if o == "setvalues":
         kind, sv = SOLVERS[op["sid"]]
         sv.values = jnp.array([float(Fraction(x)) for x in op["V"]], dtype=jnp.float64)
